@@ -62,11 +62,10 @@ func MakeEndpointCollectionElement(
 
 	bb := make(map[string]*Upto)
 	for k, b := range blackboxes {
+		// The Upto is shared with the caller, who may hand it to the next diagram: it is not changed here. A note of one
+		// character stands for "no text" where the note is written (Upto.note).
 		if len(b.Comment) > 0 {
 			bb[k] = b
-			if len(b.Comment) == 1 {
-				b.Comment = ""
-			}
 		}
 	}
 
@@ -95,6 +94,14 @@ type Upto struct {
 	VisitCount int
 	Comment    string
 	ValueType  UptoType
+}
+
+// note is the text written for the blackbox: a comment of a single character means that there is none.
+func (u *Upto) note() string {
+	if len(u.Comment) == 1 {
+		return ""
+	}
+	return u.Comment
 }
 
 type EndpointElement struct {
@@ -424,15 +431,15 @@ func (v *SequenceDiagramVisitor) visitEndpoint(e *EndpointElement) error {
 			if upto != nil {
 				if len(payload) > 0 {
 					v.w.Activate(agent)
-					if len(upto.Comment) > 0 {
-						fmt.Fprintf(v.w, "note over %s: %s\n", agent, upto.Comment)
+					if note := upto.note(); len(note) > 0 {
+						fmt.Fprintf(v.w, "note over %s: %s\n", agent, note)
 					}
 				} else {
 					direct := "right"
 					if sender > agent {
 						direct = "left"
 					}
-					fmt.Fprintf(v.w, "note %s: %s\n", direct, upto.Comment)
+					fmt.Fprintf(v.w, "note %s: %s\n", direct, upto.note())
 				}
 			}
 			if len(payload) > 0 {
